@@ -320,7 +320,9 @@ ORACLES = {
             _oracle('operand order of or_ / and_ when one operand is also a selected output', 100, 1500, kind='reuse', both_roles=True)],
     'C11': [_oracle('infer(entity(T(a=x, b=y|y.attr, tag=const), conditions)): constants (None, falsy, iterable), falsy classes, '
                     'bodies with disjunction / negation, zero-solution bodies', 250, 4000, kind='infer'),
-            _oracle('inference, conjunctive bodies only', 100, 1500, kind='infer', neg=False, depth=1)],
+            _oracle('inference, conjunctive bodies only', 100, 1500, kind='infer', neg=False, depth=1),
+            _oracle('a constructor argument that is also an operand of the or_ in the rule body (falsy values are passed on)', 100, 1500,
+                    kind='reuse', both_roles='argument')],
     'C12': [_oracle('rule trees: refinement / alternative nested two levels, six shapes', 250, 4000, kind='rdr'),
             _oracle('random rule trees: up to 5 rules, several refinements / alternatives per block, nested two levels', 300, 5000,
                     kind='rdrtree', rules=5, depth=2),
@@ -391,6 +393,8 @@ ORACLES = {
             _oracle('an expression object used as a condition, then as an operand', 100, 1500, kind='reuse'),
             _oracle('one expression that is a selected output AND a condition (either operand of or_ / and_) in the same query, '
                     'falsy data, evaluated twice', 150, 2000, kind='reuse', both_roles=True),
+            _oracle('one expression that is a constructor argument of an inferred instance AND an operand of the or_ in the same '
+                    'rule (head built before or after the condition), falsy data', 150, 2000, kind='reuse', both_roles='argument'),
             _oracle('flatten over collections with falsy elements, parent selected', 60, 600, kind='flatten', with_cond=False,
                     select_parent=True, falsy=True, n=4),
             _oracle('flatten over collections with falsy elements, element only', 60, 600, kind='flatten', with_cond=False,
